@@ -49,8 +49,9 @@ func init() {
 	wrap("C03", c03R12, "R12 (added, F-C03-4): in every function that produces the scope of a scoped insert (discovered from Store.SetFromResponseScoped's scope argument; today ecs.Policy.ClampScope) the length handed to netip.Addr.Prefix / netip.PrefixFrom originates only from netip.Prefix.Bits() of a declared prefix (authority SCOPE, query SOURCE) — never from configuration such as min_scope, which would file a /24-scoped answer under the enclosing /16 and serve it to the other /24s.")
 }
 
-func c03R12(c *Ctx) {
-	const R = "C03-R12"
+func c03R12(c *Ctx) { c03R12as(c, "C03-R12") }
+
+func c03R12as(c *Ctx, R string) {
 	c.Doc(R, "every function that produces the scope of a scoped insert (the netip.Prefix handed to Store.SetFromResponseScoped, walked back through helpers; today ecs.(*Policy).ClampScope) builds prefixes only with lengths that originate from netip.Prefix.Bits() / netip.Addr.BitLen() — the authority's SCOPE or the query's SOURCE — so a configured floor (Policy.MinScopeV4/V6) can refuse a scope but can never re-label an answer for a wider audience than the authority declared (RFC 7871 §7.3.1)")
 	setScoped := c.fobj(R, c03Pkg+".(*Store).SetFromResponseScoped")
 	addrPrefix := c.fobj(R, "net/netip.Addr.Prefix")
@@ -197,6 +198,50 @@ func c03R12(c *Ctx) {
 		if len(calls) == 0 {
 			c.ok(R, key, p.Pos(), "produces a cache-key scope without constructing a prefix (hands on what it was given, or nothing)")
 			continue
+		}
+		// (b) the ADDRESS of the produced scope comes from one declared prefix: every
+		// parameter the address operand of a prefix constructor can be traced back to
+		// is one and the same — an address selected between two prefixes (the
+		// authority's SCOPE here, the query's SOURCE there) re-labels the answer for
+		// the other prefix's audience
+		akey := fmt.Sprintf("%s|%s|address of the produced scope comes from one declared prefix", R, fnKey(p))
+		roots := map[ssa.Value]bool{}
+		var rootsOf func(e *Expr, d int)
+		rootsOf = func(e *Expr, d int) {
+			if e == nil || d > 6 {
+				return
+			}
+			for _, l := range Origins(e, nil) {
+				l = strip(l)
+				if l == nil {
+					continue
+				}
+				switch l.K {
+				case EParam:
+					if l.V != nil {
+						roots[l.V] = true
+					}
+				case ECall:
+					if len(l.Args) > 0 {
+						rootsOf(l.Args[0], d+1)
+					}
+				}
+			}
+		}
+		for _, in := range calls {
+			if a := callArg(in, 0); a != nil {
+				rootsOf(Desc(a), 0)
+			}
+		}
+		if len(roots) > 1 {
+			var names []string
+			for v := range roots {
+				names = append(names, v.Name())
+			}
+			sort.Strings(names)
+			c.violation(R, akey, calls[0].Pos(), fmt.Sprintf("the address of the prefix built here is taken from more than one parameter (%v): depending on the branch the answer is filed under another declared prefix's address — e.g. under the query's SOURCE although the authority scoped it to a different subnet", names))
+		} else {
+			c.ok(R, akey, calls[0].Pos(), "the address operand of every prefix built here traces back to at most one parameter")
 		}
 		for _, in := range calls {
 			built++
